@@ -32,6 +32,25 @@ def run(ctx):
         allp = allp[:28]
     pairs += allp
     ops = ["pair %s %s %s %s" % (fx, a, b, s) for fx, a, b in pairs for s in SCHEDULES]
+    # three concurrent requests: all 90 interleavings of their load/save steps for a few triples
+    def interleavings3():
+        res = []
+        def rec(prefix, left):
+            if not any(left.values()):
+                res.append(prefix); return
+            for k in "ABC":
+                if left[k]:
+                    left[k] -= 1; rec(prefix + k, left); left[k] += 1
+        rec("", {"A": 2, "B": 2, "C": 2})
+        return res
+    triples = [("tokens", "u2f:1:disable", "u2f:2:rename7", "totp:1:delete"), ("otp", "otp:ok", "otp:ok", "otp:bad")]
+    if not ctx.quick():
+        triples += [("tokens", rng.choice(TOKEN_KINDS), rng.choice(TOKEN_KINDS), rng.choice(TOKEN_KINDS)) for _ in range(6)]
+    scheds3 = interleavings3()
+    if ctx.quick():
+        scheds3 = ["AABBCC", "ABCABC", "ABCCBA", "CBAABC", "ABACBC", "BCABCA", "CCBBAA", "ACBBCA"]
+    n_before_triples = len(ops)
+    ops += ["triple %s %s %s %s %s" % (fx, a, b, cc, s3) for fx, a, b, cc in triples for s3 in scheds3]
     n_pair = len(ops)
     totp_rounds = 6 if ctx.quick() else 40
     ops += ["totp2 %d" % rng.choice([2, 4, 8]) for _ in range(totp_rounds)]
@@ -47,6 +66,25 @@ def run(ctx):
     hist = collections.Counter()
     anomalies = 0
     traces = set()
+    # triples: an outcome must equal one of the six sequential orders' outcomes (computed by the model,
+    # which the differential above ties to the implementation); anomalies are keyed like the pair ones
+    import itertools as _it
+    seqs = ["".join(x * 2 for x in perm) for perm in _it.permutations("ABC")]
+    for ti, (fx, a, b, cc) in enumerate(triples):
+        seq_model = set(c.run_driver(ctx, "model", ["triple %s %s %s %s %s" % (fx, a, b, cc, sq) for sq in seqs]))
+        for j, s3 in enumerate(scheds3):
+            out = strip(impl[n_before_triples + ti * len(scheds3) + j])
+            if out in seq_model:
+                hist["triple:serialisable"] += 1
+            else:
+                kinds = [a, b, cc]
+                key = ("double-spend:" if all(k.startswith("otp") for k in kinds if k != "otp:bad") and fx == "otp" else "lost-update:") + \
+                    "|".join(sorted(set(PATH[k.split(":")[0]] for k in kinds)) if fx != "otp" else ["bootstrapOtpAuth", "bootstrapOtpAuth"])
+                if key.startswith("lost-update:") and len(key.split("|")) == 1:
+                    key = key + "|" + key.split(":")[1]
+                hist["triple:" + key] += 1
+                c.add_violation(ctx, key, "three requests %s, %s, %s on one user under schedule %s give %r, which no sequential order produces" % (
+                    a, b, cc, s3, out), {"op": ops[n_before_triples + ti * len(scheds3) + j], "impl": out})
     for i, (fx, a, b) in enumerate(pairs):
         outs = {s: strip(impl[i * 6 + j]) for j, s in enumerate(SCHEDULES)}
         for j in range(6):
